@@ -13,7 +13,7 @@
    The premise "times later than the current sample" is [respects_future] etc.: the truncated time
    (`as u64`) of every call is > the sample during which the call is made (0 for global scope). *)
 From Coq Require Import List NArith ZArith Permutation.
-From Mimium Require Import Sched.Model Sched.Spec Sched.Lemmas.
+From Mimium Require Import Sched.Model Sched.Spec Sched.Lemmas Sched.WasmAlloc Sched.AllocLemmas.
 Import ListNotations.
 Local Open Scope N_scope.
 
@@ -90,6 +90,27 @@ Proof. exact vm_not_future_panics_at_next_sample. Qed.
 Theorem C11_wasm_not_future_panics_in_call :
   forall s r, when (to_task r) <= w_cur s -> schedule_at_wasm s r = Panic.
 Proof. exact schedule_at_wasm_panics. Qed.
+
+(* ---- finding F13: the WASM theorem above is about handles that keep denoting the same closure.  The real
+   WASM backend stores a closure created during a sample at a bump pointer that is rewound afterwards
+   (Sched/WasmAlloc.v: [a_run true] = the code, [a_run false] = closures retained).  Witness:
+     fn t0(){ c0=c0+1.0  t0@(now+2.0) }  fn t1(){ c0=c0+4.0  t1@(now+3.0) }  t0@1.0  t1@2.0
+   respects the premise; with closures retained the functions run exactly as Sched/Model.v's WASM machine
+   says (t0 at 1,3,5,7,9; t1 at 2,5,8); the code runs t1 at sample 3 where t0 is due and never runs t0 again.
+   (checks/C11.py replays this witness on the real runtimes.) ---- *)
+Theorem C11_wasm_tick_allocated_closure_refuted :
+  exists (rules : list (N * list rule)) (init : list (Z * N)) (T : nat) (code_runs ideal_runs : list (list N)),
+    Forall (fun e : N * list rule => rules_delay_ok (snd e)) rules
+    /\ init_respects_future (map (fun r : Z * N => (FQuarter (fst r), snd r)) init)
+    /\ (exists s, a_run true sel_first (fresh_behaviour rules) (fresh_dsp []) [] 0 (fresh_init init) T
+                  = Done (s, code_runs))
+    /\ (exists s, a_run false sel_first (fresh_behaviour rules) (fresh_dsp []) [] 0 (fresh_init init) T
+                  = Done (s, ideal_runs))
+    /\ (exists w ex, run_wasm sel_first (table_behaviour rules) (table_dsp [])
+                       (map (fun r : Z * N => (FQuarter (fst r), snd r)) init) T = Done (w, ex)
+                     /\ map (map clo) ex = ideal_runs)
+    /\ code_runs <> ideal_runs.
+Proof. exact f13_refuted. Qed.
 
 (* ---- the premise is satisfiable; the table-driven behaviours of the correspondence check satisfy it ---- *)
 
